@@ -31,7 +31,7 @@ NA = {
 props = [json.loads(l) for l in open(os.path.join(V, 'properties.jsonl'))]
 m = {
  'version': 1,
- 'setup_cmd': 'cd /verif/native && CARGO_NET_OFFLINE=true cargo build --offline 2>&1 | tail -2',
+ 'setup_cmd': 'bin/setup.sh',
  'hooks': {'guard': 'manuel_woelker_rust_vfs_verif', 'enable': 'RUSTFLAGS="--cfg manuel_woelker_rust_vfs_verif" when building native/ (profile "hooks" in harness/script.py): MemoryFS then uses vfs::verif_hooks::RwLock, which yields to an installed schedule before every acquisition; used only to replay schedule counterexamples of C16/C17 natively. No check needs the hook to decide a property (the MIR dump is taken with the cfg off).',
            'baseline_off_cmd': 'cd /repo && cargo test --workspace --no-fail-fast --offline', 'source_commits': ['7227458', '2f1e929'], 'add_only': False},
  'engines': [{'name': 'mirsym', 'path': 'mirsym/', 'serves_properties': sorted(CHECKS), 'kind_free_text': 'symbolic executor over rustc MIR text dumps, z3 bit-vector back end'},
